@@ -27,6 +27,10 @@ type Session struct {
 	nfresh  int
 	Stats   *Stats
 	dead    bool
+	curTimeout time.Duration
+	cutLists map[string]*cutList
+	NoSlices bool
+	AbstractMul bool // print products of two symbolic terms as unconstrained bounded constants (over-approximation)
 	Seed    int
 	script  *strings.Builder // full transcript of the base level (for dumps)
 }
@@ -43,8 +47,16 @@ func SolverBin() string {
 	if b := os.Getenv("VERIF_SOLVER"); b != "" {
 		return b
 	}
+	if _, err := exec.LookPath("z3-new"); err == nil {
+		return "z3-new"
+	}
 	return "z3"
 }
+
+// Tactic used for proof obligations: a fresh (non-incremental) solve with
+// equality solving, which decides many div/mod-heavy queries that the
+// incremental core does not.
+const hardTactic = "(check-sat-using (then simplify propagate-values solve-eqs smt))"
 
 func NewSession(timeout time.Duration, st *Stats) (*Session, error) {
 	s := &Session{Bin: SolverBin(), Timeout: timeout, Stats: st}
@@ -77,10 +89,12 @@ func (s *Session) start() error {
 }
 
 func (s *Session) resetState() {
+	s.curTimeout = s.Timeout
 	s.defined = map[int]string{}
 	s.vars = map[string]*Term{}
 	s.bvars = map[string]bool{}
 	s.divmod = map[string][2]string{}
+	s.cutLists = nil
 	s.script = &strings.Builder{}
 }
 
@@ -187,6 +201,10 @@ func (s *Session) def(t *Term) string {
 			s.send(fmt.Sprintf("(declare-const %s Bool)", n))
 		}
 	case ODiv, OMod:
+		if t.Args[1].IsConst() && !s.NoSlices {
+			n = s.defSlice(t)
+			break
+		}
 		a, b := s.def(t.Args[0]), s.def(t.Args[1])
 		k := fmt.Sprintf("%d/%d", t.Args[0].ID, t.Args[1].ID)
 		qr, ok := s.divmod[k]
@@ -198,6 +216,8 @@ func (s *Session) def(t *Term) string {
 			body := fmt.Sprintf("(and (= %s (+ (* %s %s) %s)) (<= 0 %s) (< %s %s))", a, b, q, r, r, r, b)
 			if t.Args[1].IsConst() {
 				s.send(fmt.Sprintf("(assert %s)", body))
+			} else if s.AbstractMul {
+				s.send(fmt.Sprintf("(assert (=> (> %s 0) (and (<= 0 %s) (< %s %s))))", b, r, r, b))
 			} else {
 				s.send(fmt.Sprintf("(assert (=> (> %s 0) %s))", b, body))
 			}
@@ -253,6 +273,18 @@ func (s *Session) def(t *Term) string {
 				e = "(+ " + strings.Join(parts, " ") + ")"
 			}
 		case OMul:
+			if s.AbstractMul {
+				n = s.freshName("mul")
+				s.send(fmt.Sprintf("(declare-const %s Int)", n))
+				if t.Lo != nil {
+					s.send(fmt.Sprintf("(assert (<= %s %s))", lit(t.Lo), n))
+				}
+				if t.Hi != nil {
+					s.send(fmt.Sprintf("(assert (<= %s %s))", n, lit(t.Hi)))
+				}
+				s.defined[t.ID] = n
+				return n
+			}
 			e = fmt.Sprintf("(* %s %s)", args[0], args[1])
 		case OIte:
 			e = fmt.Sprintf("(ite %s %s %s)", args[0], args[1], args[2])
@@ -274,6 +306,130 @@ func (s *Session) def(t *Term) string {
 	}
 	s.defined[t.ID] = n
 	return n
+}
+
+// ---- digit-slice decomposition of div/mod by constants
+//
+// All divisions of the same dividend X by constants of one family (powers of
+// ten, powers of two) are expressed over a common refinement
+//   X = s0 + c1*s1 + ... + cm*sm,   0 <= sj < c(j+1)/cj
+// so that X div cj and X mod cj are linear in the slices and the relations
+// between different cut points are explicit.
+
+type cutList struct {
+	cuts   []*big.Int // ascending, each divides the next
+	slices []string   // len(cuts)+1 names
+}
+
+func family(c *big.Int) string {
+	if _, ok := isPow2(c); ok {
+		return "p2"
+	}
+	// power of ten?
+	v := new(big.Int).Set(c)
+	ten := big.NewInt(10)
+	m := new(big.Int)
+	for v.Cmp(big1) > 0 {
+		v.QuoRem(v, ten, m)
+		if m.Sign() != 0 {
+			return "c" + c.String()
+		}
+	}
+	return "p10"
+}
+
+func (s *Session) defSlice(t *Term) string {
+	X := t.Args[0]
+	c := t.Args[1].C
+	xn := s.def(X)
+	key := fmt.Sprintf("%d/%s", X.ID, family(c))
+	if s.cutLists == nil {
+		s.cutLists = map[string]*cutList{}
+	}
+	cl := s.cutLists[key]
+	if cl == nil {
+		cl = &cutList{}
+		s.cutLists[key] = cl
+		s0, s1 := s.freshName("sl"), s.freshName("sl")
+		s.send(fmt.Sprintf("(declare-const %s Int)(declare-const %s Int)", s0, s1))
+		s.send(fmt.Sprintf("(assert (= %s (+ %s (* %s %s))))", xn, s0, lit(c), s1))
+		s.send(fmt.Sprintf("(assert (and (<= 0 %s) (< %s %s)))", s0, s0, lit(c)))
+		s.boundTop(s1, X, c)
+		cl.cuts = []*big.Int{c}
+		cl.slices = []string{s0, s1}
+	}
+	// position of c
+	pos := -1
+	for i, cc := range cl.cuts {
+		if cc.Cmp(c) == 0 {
+			pos = i
+		}
+	}
+	if pos < 0 {
+		// insert: find j = number of cuts below c
+		j := 0
+		for j < len(cl.cuts) && cl.cuts[j].Cmp(c) < 0 {
+			j++
+		}
+		below := big1
+		if j > 0 {
+			below = cl.cuts[j-1]
+		}
+		old := cl.slices[j]
+		lo, hi := s.freshName("sl"), s.freshName("sl")
+		f := new(big.Int).Quo(c, below) // slice j is split at factor f
+		s.send(fmt.Sprintf("(declare-const %s Int)(declare-const %s Int)", lo, hi))
+		s.send(fmt.Sprintf("(assert (= %s (+ %s (* %s %s))))", old, lo, lit(f), hi))
+		s.send(fmt.Sprintf("(assert (and (<= 0 %s) (< %s %s)))", lo, lo, lit(f)))
+		if j < len(cl.cuts) {
+			up := new(big.Int).Quo(cl.cuts[j], c)
+			s.send(fmt.Sprintf("(assert (and (<= 0 %s) (< %s %s)))", hi, hi, lit(up)))
+		} else {
+			s.boundTop(hi, X, c)
+		}
+		cl.cuts = append(cl.cuts[:j], append([]*big.Int{c}, cl.cuts[j:]...)...)
+		ns := append([]string{}, cl.slices[:j]...)
+		ns = append(ns, lo, hi)
+		ns = append(ns, cl.slices[j+1:]...)
+		cl.slices = ns
+		pos = j
+	}
+	// expression
+	var parts []string
+	if t.Op == ODiv {
+		for i := pos + 1; i < len(cl.slices); i++ {
+			f := new(big.Int).Quo(cl.cuts[i-1], c)
+			if f.Cmp(big1) == 0 {
+				parts = append(parts, cl.slices[i])
+			} else {
+				parts = append(parts, fmt.Sprintf("(* %s %s)", lit(f), cl.slices[i]))
+			}
+		}
+	} else {
+		for i := 0; i <= pos; i++ {
+			if i == 0 {
+				parts = append(parts, cl.slices[0])
+			} else {
+				parts = append(parts, fmt.Sprintf("(* %s %s)", lit(cl.cuts[i-1]), cl.slices[i]))
+			}
+		}
+	}
+	e := parts[0]
+	if len(parts) > 1 {
+		e = "(+ " + strings.Join(parts, " ") + ")"
+	}
+	n := fmt.Sprintf("t%d", t.ID)
+	s.send(fmt.Sprintf("(define-fun %s () Int %s)", n, e))
+	return n
+}
+
+func (s *Session) boundTop(name string, X *Term, c *big.Int) {
+	if X.Lo != nil {
+		s.send(fmt.Sprintf("(assert (<= %s %s))", lit(floorDiv(X.Lo, c)), name))
+	}
+	if X.Hi != nil {
+		s.send(fmt.Sprintf("(assert (<= %s %s))", name, lit(floorDiv(X.Hi, c))))
+	}
 }
 
 func (s *Session) bitblast(t *Term) string {
@@ -333,6 +489,8 @@ func (s *Session) Assert(t *Term) {
 	s.send(fmt.Sprintf("(assert %s)", n))
 }
 
+var dumpN int
+
 type Result int
 
 const (
@@ -362,6 +520,17 @@ func (s *Session) readLine() (string, error) {
 // answer is Sat and wantModel is set, the model of all declared variables is
 // returned.
 func (s *Session) Check(wantModel bool, extra ...*Term) (Result, map[string]*big.Int, map[string]bool) {
+	return s.CheckMode(false, wantModel, extra...)
+}
+
+// CheckMode: hard selects the tactic-based strategy first (proof obligations);
+// the other strategy is tried when the first answers unknown.
+func (s *Session) CheckMode(hard, wantModel bool, extra ...*Term) (Result, map[string]*big.Int, map[string]bool) {
+	return s.CheckT(s.Timeout, hard, wantModel, extra...)
+}
+
+// CheckT is CheckMode with an explicit per-strategy timeout.
+func (s *Session) CheckT(timeout time.Duration, hard, wantModel bool, extra ...*Term) (Result, map[string]*big.Int, map[string]bool) {
 	names := make([]string, 0, len(extra))
 	for _, e := range extra {
 		if e.IsFalse() {
@@ -373,21 +542,32 @@ func (s *Session) Check(wantModel bool, extra ...*Term) (Result, map[string]*big
 		names = append(names, s.def(e))
 	}
 	t0 := time.Now()
+	if timeout != s.curTimeout {
+		s.send(fmt.Sprintf("(set-option :timeout %d)", timeout.Milliseconds()))
+		s.curTimeout = timeout
+	}
 	s.send("(push 1)")
 	for _, n := range names {
 		s.send(fmt.Sprintf("(assert %s)", n))
 	}
-	s.send("(check-sat)")
-	// watchdog: a solver that ignores its own timeout is killed
-	wd := time.AfterFunc(s.Timeout+10*time.Second, func() {
-		if s.cmd != nil && s.cmd.Process != nil {
-			s.cmd.Process.Kill()
-		}
-	})
-	line, err := s.readLine()
-	wd.Stop()
+	strategies := []string{"(check-sat)", hardTactic}
+	if hard || os.Getenv("VERIF_TACTIC_FIRST") != "" {
+		strategies = []string{hardTactic, "(check-sat)"}
+	}
 	res := Unknown
-	if err == nil {
+	for _, st := range strategies {
+		s.send(st)
+		// watchdog: a solver that ignores its own timeout is killed
+		wd := time.AfterFunc(timeout+10*time.Second, func() {
+			if s.cmd != nil && s.cmd.Process != nil {
+				s.cmd.Process.Kill()
+			}
+		})
+		line, err := s.readLine()
+		wd.Stop()
+		if err != nil {
+			break
+		}
 		switch line {
 		case "sat":
 			res = Sat
@@ -400,6 +580,13 @@ func (s *Session) Check(wantModel bool, extra ...*Term) (Result, map[string]*big
 			}
 			res = Unknown
 		}
+		if res != Unknown {
+			break
+		}
+	}
+	if d := os.Getenv("VERIF_DUMP"); d != "" && (res == Unknown || time.Since(t0) > 5*time.Second) {
+		dumpN++
+		os.WriteFile(fmt.Sprintf("%s/q%d_%s_%dms.smt2", d, dumpN, res, time.Since(t0).Milliseconds()), []byte(s.script.String()), 0o644)
 	}
 	var env map[string]*big.Int
 	var benv map[string]bool
